@@ -71,6 +71,9 @@ func jsonTree(dec *json.Decoder) Sx {
 }
 
 func jsonToTree(s string) Sx {
+	if !json.Valid([]byte(s)) { // (a Decoder in its error state answers More() with true for ever)
+		return Sym("invalid")
+	}
 	dec := json.NewDecoder(strings.NewReader(s))
 	dec.UseNumber()
 	return jsonTree(dec)
